@@ -307,7 +307,7 @@ pub fn run(ctx: &mut Ctx) -> (&'static str, String, bool) {
                 }
             }
             // every pair of drop points
-            let pair_cap = if miri { 4 } else if thorough { 60 } else { 24 };
+            let pair_cap = if miri { 4 } else if thorough { 120 } else { 40 };
             let lim = (total + 2).min(pair_cap);
             for k1 in 1..=lim {
                 for k2 in k1 + 1..=lim + 2 {
@@ -350,7 +350,7 @@ pub fn run(ctx: &mut Ctx) -> (&'static str, String, bool) {
     }
 
     // ---- long sessions with random multi-drop plans (including > 6120 bytes) ------------------------
-    let n = if miri { 1 } else { ctx.tier.pick(150u64, 5000u64) };
+    let n = if miri { 1 } else { ctx.tier.pick(2_000u64, 60_000u64) };
     let parts: Vec<Part> = (0..n)
         .into_par_iter()
         .map(|i| {
